@@ -664,6 +664,15 @@ class Analysis:
             res = (lo[0], hi[1]) if lo and hi else None
             self.write(st, t["dest"], res, tv or tl or th)
             return
+        # allocation sized by an option: `Vec::with_capacity(n)` / `vec![x; n]` / `reserve(n)` abort ("capacity overflow") or
+        # exhaust memory when n is only bounded by the option's type
+        m_alloc = re.search(r"^std::vec::Vec::<T>::with_capacity$|^std::vec::from_elem$|^std::vec::Vec::<T, A>::(reserve|reserve_exact|resize)$|BytesMut::with_capacity$", c)
+        if m_alloc and args:
+            ai = 0 if c.endswith("with_capacity") else 1
+            if ai < len(args):
+                n_iv, kn, tnn = self.read(st, args[ai])
+                ok = n_iv is not None and n_iv[1] <= self.benign_len[1]
+                self.record(bb, "AllocSize", f"requested capacity in {n_iv} (limit {self.benign_len[1]})", ok, tnn, "", t["span"])
         ivs = [self.read(st, a) for a in args]
         tn = any(x[2] for x in ivs)
         res = None
